@@ -461,16 +461,15 @@ class ModelExport:
                     target_types = model.List(
                         [type.to_model() for type in op.cfg_outputs]
                     )
-                    targets = [
-                        self.link_name(InPort(child, i))
-                        for i in range(child_data._num_inps)
-                    ]
+                    targets = [self.link_name(InPort(child, 0))]
                 case DataflowBlock() as op:
                     if source is None:
                         source_types = model.List(
                             [type.to_model() for type in op.inputs]
                         )
-                        source = self.link_name(OutPort(child, 0))
+                        # the region's source is linked to the control input
+                        # of the entry block
+                        source = self.link_name(InPort(child, 0))
 
                     child_node = self.export_node(child)
 
